@@ -355,11 +355,24 @@ int fiber_wait_for_event(int fd, uint32_t events) {
   e.events = EPOLLONESHOT | info->events;
   e.data.fd = fd;
 
+  int ctl_ret;
   if (!info->added) {
-    epoll_ctl(event_fd, EPOLL_CTL_ADD, fd, &e);
-    info->added = 1;
+    ctl_ret = epoll_ctl(event_fd, EPOLL_CTL_ADD, fd, &e);
+    if (!ctl_ret) {
+      info->added = 1;
+    }
   } else {
-    epoll_ctl(event_fd, EPOLL_CTL_MOD, fd, &e);
+    ctl_ret = epoll_ctl(event_fd, EPOLL_CTL_MOD, fd, &e);
+  }
+  if (ctl_ret) {
+    // the descriptor cannot be waited on - typically it was closed by another
+    // fiber between the caller's check and this registration. nothing would
+    // ever wake us: report the error (errno is set) instead of sleeping
+    if (!info->waiters) {
+      info->events = 0;
+    }
+    fiber_spinlock_unlock(&info->spinlock);
+    return FIBER_ERROR;
   }
 #elif defined(SOLARIS)
   if (events & FIBER_POLL_IN) {
@@ -385,7 +398,12 @@ int fiber_wait_for_event(int fd, uint32_t events) {
 
   // if the fd is closed while we're polling, this_fiber->scratch will be
   // non-NULL (see fiber_fd_closed)
-  return this_fiber->scratch ? FIBER_ERROR : FIBER_SUCCESS;
+  if (this_fiber->scratch) {
+    this_fiber->scratch = NULL;
+    errno = EBADF;  // callers return -1; do not leave a stale errno (EAGAIN)
+    return FIBER_ERROR;
+  }
+  return FIBER_SUCCESS;
 }
 
 int fiber_sleep(uint32_t seconds, uint32_t useconds) {
@@ -421,7 +439,7 @@ int fiber_sleep(uint32_t seconds, uint32_t useconds) {
   return FIBER_SUCCESS;
 }
 
-void fiber_fd_closed(int fd) {
+void fiber_fd_close_begin(int fd) {
   if (event_fd < 0) {
     return;
   }
@@ -447,5 +465,19 @@ void fiber_fd_closed(int fd) {
   // setting result to -1 indicates to fiber_wait_for_event that the fd was
   // closed
   fiber_event_wake_waiters(fiber_manager_get(), info, -1);
-  fiber_spinlock_unlock(&info->spinlock);
+  // the fd's lock stays held until fiber_fd_close_end(): a fiber that is about
+  // to wait on fd registers either before this point (and has just been woken)
+  // or after the descriptor is really closed (and its registration fails)
+}
+
+void fiber_fd_close_end(int fd) {
+  if (event_fd < 0) {
+    return;
+  }
+  fiber_spinlock_unlock(&wait_info[fd].spinlock);
+}
+
+void fiber_fd_closed(int fd) {
+  fiber_fd_close_begin(fd);
+  fiber_fd_close_end(fd);
 }
